@@ -5,16 +5,16 @@ package rules
 // what is not.
 
 func init() {
-	property("C04", []string{"M3", "M4", "M5", "M6", "M7"},
+	property("C04", []string{"M1", "M2", "M3", "M4", "M5", "M5b", "M6", "M7", "M8"},
 		"Decided for all schedules at once (the static half the property's own quantifier names): no closure that outlives the call that created it (renderer, evaluator, compiler, filter closures) writes a variable it captured or anything reached through one (M3); no package-level variable is written after initialisation (M4); no store or map update goes into an object shared by all renders - engine, template, render nodes, compiled expressions, configuration maps, values captured at compile time - except while that object is being built or in a configuration-phase function (M5); lazily initialised fields sit behind sync.Once consistently (M6); no configuration mutator is reachable from a run-phase entry point (M7). Together: every location written by a run-phase call is allocated by that call. NOT decided: actual interleavings under the race detector, races inside caller code (Drops, custom tags/filters, the io.Writer), ParseTemplateAndCache concurrent with include (classified configuration), mutation through library calls the rules do not model, and the 'equals sequential' clause beyond sharing no state.",
 		append([]string{"tables/api_phases.json lists the configuration-phase API"}, baseAssumptions...)...)
-	property("C01", []string{"P1", "P2", "P3", "P4", "P5", "P6", "P7", "P8", "P9s", "P10", "P11", "E4", "E5", "F1", "F4"},
+	property("C01", []string{"P1", "P2", "P3", "P4", "P5", "P6", "P7", "P8", "P9s", "P10", "P11", "E4p", "E5", "F1", "F4"},
 		"Decided for all templates and bindings at once - the catalogue of panic sources the code can contain: every explicit panic reachable at run phase raises a type its recover boundary converts to an error, or is a reviewed unreachable assertion (P1, with the registry prunes F4/F1 and the exhaustiveness proof P11); no error location is taken from a node whose SourceLocation panics (P2); unchecked type assertions on values that can hold caller data (P3); reflect.TypeOf(nil)/zero reflect.Value receivers (P4); MapIndex with a key of the wrong type (P5); == or map hashing of two interfaces that may hold the same uncomparable type (P6); MustCompile of run-time text (P7); negative make sizes (P8); slice and index bounds in the filter package, by a difference-bound prover over guards, clamps, phis and lengths (P9s); integer division by zero (P10); write failures raised as panics (E4, E5). NOT decided: termination and the running-time clause, stack depth (recursive include), nil dereferences and index bounds outside the filter package (ragel/goyacc tables, regexp submatch indices, the parser stack), arithmetic overflow, panics inside the standard library on arguments the catalogue does not model, caller-supplied ToLiquid/struct methods.",
 		baseAssumptions...)
-	property("C02", []string{"D1", "D2", "D3", "M3", "M4", "M5"},
+	property("C02", []string{"D1", "D1c", "D2", "D3", "M3", "M4", "M5", "M5b", "M8"},
 		"Decided for all inputs at once: Go's randomised map iteration order is never observable - every range over a map and every reflect MapKeys() walk either only accumulates commutatively (map inserts) or has its keys sorted before any other use (D1); no clock, random, environment, process, stack, goroutine or %p source is consulted outside the date \"now\" exception, package initialisers and the re-raise path of the recover closure (D2); nothing survives from one render to the next - no compile-time closure writes what it captured (M3), no package-level variable is written after initialisation (M4), no shared object is written at run phase (M5). NOT decided: that fmt prints no address for values containing pointers, the time zone, equality of error texts when several elements of a map fail conversion, equality of error strings beyond sharing the code path. Every entry point funnels into newTemplate/Compile and render.Render: each return passes through the common call or is an established failure (D3).",
 		baseAssumptions...)
-	property("C03", []string{"M1", "M2", "M3", "M4", "M5", "B7"},
+	property("C03", []string{"M1", "M2", "M3", "M4", "M5", "M5b", "M8", "B7"},
 		"Decided for all histories at once by an interprocedural distance analysis (aliases of the caller's storage vs. copies allocated during the call, through interface methods, renderer closures, reflect wrappers and sort.Interface implementations): no standard filter stores through, appends to, sorts, copies into or otherwise writes a slice/map/pointer/interface argument or anything nested in it (M1); nothing reachable from Render/FRender/RenderString/ParseAndRender* writes the bindings map passed in or any object reached from it - only the per-render copy made by newNodeContext is written (M2); the template and engine are not written by rendering: no compile-time closure writes a capture (M3), no global is written (M4), no store goes into a render node, compiled expression or configuration map at run phase (M5), so assign/capture variables, loop variables, forloop and cycle state live only in per-render allocations. NOT decided: mutation performed by caller-supplied code (ToLiquid, struct methods, custom filters) or inside reflect-driven library code (json.Marshal, fmt), which is trusted read-only.",
 		baseAssumptions...)
 	property("C20", []string{"E4", "E5", "P2", "P1"},
